@@ -52,6 +52,13 @@ class Driver(GenericAdapter):
         if form == "tuple":
             return tuple(xs)
         if form == "iset":
+            if self.trace_mode and len(xs) >= 1:
+                # an operand with a history of its own: extra items added around the real ones and removed again (tombstones)
+                o_ = self.cls([self.K(2900 + j) for j in range(9)] + xs[:1] + [self.K(2950)] + xs[1:])
+                for j in range(9):
+                    o_.remove(self.K(2900 + j)) if j % 2 else o_.discard(self.K(2900 + j))
+                o_.remove(self.K(2950))
+                return o_
             return self.cls(xs)
         if form == "set":
             return set(xs)
@@ -162,7 +169,8 @@ class Driver(GenericAdapter):
                     res = self.cls(res)
                 if [dec(e) for e in src] != before:
                     v = [-6]
-                got["also_f"] = [self.observe(src, None)]
+                if not self.trace_mode:           # (traces re-read the source through the following events)
+                    got["also_f"] = [self.observe(src, None)]
                 s = res
             elif n in ("issubset", "issuperset", "isdisjoint"):
                 v = [1 if getattr(s, n)(args[0]) else 0]
@@ -346,19 +354,39 @@ def record(ntraces, length, seed, nitems):
                     op = {"op": k, "x": 0, "ops": [[rng.randint(1, nitems) for _ in range(rng.randint(0, 4))] for _ in range(rng.randint(1, 2))]}
             else:
                 op = {"op": rng.choice(["sort", "reverse", "clear"] if rng.random() < 0.2 else ["reverse", "sort"]), "x": 0, "ops": []}
+            pure = False
+            if not queue and rng.random() < 0.07:
+                # operations that build a new set or only answer a question, on the object as it is now (holes and all):
+                # the event's reads are those of the RESULT; the history goes on with the object itself
+                k = rng.choice(["union", "intersection", "difference", "symmetric_difference", "issubset", "issuperset", "isdisjoint"])
+                cur_ = [dec(e) for e in list(s)]
+                some = [x_ for x_ in cur_ if rng.random() < 0.5][:40] + [rng.randint(1, nitems) for _ in range(rng.randint(0, 4))]
+                rng.shuffle(some)
+                nops = 1 if k in ("symmetric_difference", "issubset", "issuperset", "isdisjoint") else rng.randint(1, 3)
+                op = {"op": k, "x": 0, "ops": [some] + [[rng.randint(1, nitems) for _ in range(rng.randint(0, 5))] for _ in range(nops - 1)]}
+                if k == "issubset" and rng.random() < 0.5:
+                    op["ops"] = [cur_ + some]
+                pure = True
             if op["op"] == "add":
                 last_added = op["x"]
             drv.trace_mode = True
             variant = rng.choice(drv.variants(op))
             args = drv.build_args(op, variant)
+            if len(op["ops"]) == 1 and variant and not variant.startswith("rop") and rng.random() < 0.06 and \
+                    op["op"] in ("update", "difference_update", "intersection_update", "symmetric_difference_update", "union", "intersection",
+                                 "difference", "symmetric_difference", "issubset", "issuperset", "isdisjoint"):
+                args = [s]          # the object itself as the operand (s ^= s, s -= s, s.issubset(s), ...)
             # the specification takes operands as the sequence in which they iterate
             op["ops"] = [[dec(e) for e in a] for a in args]
+            s_before = s
             s, got = drv.step(s, op, variant, args=args)
-            ev = {"op": op, "variant": variant or "", "r": got["r"], "fork": False, "hastwin": False, "twin": dict(EMPTY_READS)}
-            ev.update(reads(s, rng, drv, nitems, last_added, i % 40 == 39 or i == length - 1))
+            ev = {"op": op, "variant": variant or "", "r": got["r"], "fork": False, "hastwin": False, "twin": dict(EMPTY_READS), "pure": pure}
+            ev.update(reads(s, rng, drv, nitems, last_added, pure or i % 40 == 39 or i == length - 1))
+            if pure:
+                s = s_before
             # a second object made from this one (constructor, from_iterable, full slice, operator) must stay what it
             # was while the other one keeps changing: the trace continues on one of the two, the other is probed
-            if twin is None and ev["len"] >= 4 and rng.random() < 0.05:
+            if twin is None and not pure and ev["len"] >= 4 and rng.random() < 0.05:
                 form = rng.choice(["ctor", "ctor", "from_iterable", "slice", "or-empty", "sub-empty"])
                 try:
                     c_ = drv.cls(s) if form == "ctor" else drv.cls.from_iterable(s) if form == "from_iterable" else s[:] if form == "slice" else \
